@@ -1,4 +1,6 @@
 import TexcraftModel.Lemmas.C06Scan
+import TexcraftModel.Lemmas.C06Print
+import TexcraftModel.Tables.C06Dec
 /-!
 C06 — glue: addition (§1239), multiplication and division (§1240), and scanning back the
 printed components.
@@ -154,6 +156,126 @@ theorem scanDimen_printed (X : Int) (hX0 : 0 ≤ X) (hX : X ≤ maxDimen) (neg :
     · simp only [mulSign, if_true]
       rw [if_pos (by simp [inI32]; omega)]
       simp
+
+
+
+/-! ## decimal digits of the integer part -/
+
+
+theorem addLsd_small (r : Int) (d : Nat) (hr : 0 ≤ r ∧ r < 100000) (hd : d < 10) :
+    addLsd 10 r d = some (r * 10 + d) := by
+  unfold addLsd
+  rw [if_pos (by simp [inI32]; omega), if_pos (by simp [inI32]; omega)]
+
+theorem constLoop_step (r : Int) (d : Nat) (ds : List Nat) (hr : 0 ≤ r ∧ r < 100000) (hd : d < 10) :
+    constLoop 10 (d :: ds) r false = constLoop 10 ds (r * 10 + d) false := by
+  simp only [constLoop, addLsd_small r d hr hd]
+
+theorem scanConst_of_loop (d : Nat) (rest : List Nat) (v : Int)
+    (h : constLoop 10 rest d false = (v, false)) : scanConst 10 (d :: rest) = (v, 0) := by
+  simp [scanConst, h]
+
+/-- `parse_constant` reads the decimal digits of `n` as `n`, without error. -/
+theorem scanConst_dec5 (n : Nat) (h : n < 100000) : scanConst 10 (dec5 n) = ((n : Int), 0) := by
+  unfold dec5
+  split
+  · exact scanConst_of_loop _ _ _ (by simp [constLoop])
+  split
+  · apply scanConst_of_loop
+    rw [constLoop_step _ _ _ (by omega) (by omega)]
+    simp only [constLoop]; congr 1; omega
+  split
+  · apply scanConst_of_loop
+    rw [constLoop_step _ _ _ (by omega) (by omega), constLoop_step _ _ _ (by omega) (by omega)]
+    simp only [constLoop]; congr 1; omega
+  split
+  · apply scanConst_of_loop
+    rw [constLoop_step _ _ _ (by omega) (by omega), constLoop_step _ _ _ (by omega) (by omega),
+      constLoop_step _ _ _ (by omega) (by omega)]
+    simp only [constLoop]; congr 1; omega
+  · apply scanConst_of_loop
+    rw [constLoop_step _ _ _ (by omega) (by omega), constLoop_step _ _ _ (by omega) (by omega),
+      constLoop_step _ _ _ (by omega) (by omega), constLoop_step _ _ _ (by omega) (by omega)]
+    simp only [constLoop]; congr 1; omega
+
+
+
+/-! ## printed components, with the decimal digits of the integer part -/
+
+
+theorem printed_ip_small (s : Int) (h : -maxDimen ≤ s ∧ s ≤ maxDimen) : (Spec.printScaled s).ip < 16384 := by
+  have hM : maxDimen = 1073741823 := rfl
+  simp only [Spec.printScaled]; omega
+
+/-- One printed component, with the decimal digits of its integer part. -/
+theorem component_roundtrip (s : Int) (h : -maxDimen ≤ s ∧ s ≤ maxDimen) (k : Nat) (hk : k ≤ 3) :
+    scanDimen (Spec.printScaled s).neg
+      (.const 10 (dec5 (Spec.printScaled s).ip) (some (Spec.printScaled s).frac)) (unitOfOrder k)
+      = .ok { val := s, nerr := 0, order := k } := by
+  have hM : maxDimen = 1073741823 := rfl
+  have hip := printed_ip_small s h
+  have hds := scanConst_dec5 (Spec.printScaled s).ip (by omega)
+  by_cases hs : 0 ≤ s
+  · have e : (((Spec.printScaled s).ip : Nat) : Int) = s / 65536 := by simp only [Spec.printScaled]; omega
+    rw [e] at hds
+    obtain ⟨frac, h1, h2⟩ := scanDimen_printed s hs h.2 false _ hds k hk
+    have hp := (print_scan_core s h)
+    obtain ⟨p, hp1, hp2, _⟩ := hp
+    subst hp2
+    have hfr := printScaled_frac s _ hp1
+    have e2 : ((s.natAbs % 65536 : Nat) : Int) = (((s % 65536).natAbs : Nat) : Int) := by omega
+    rw [e2, h1] at hfr
+    have hneg : (Spec.printScaled s).neg = false := by simp [Spec.printScaled]; omega
+    rw [hneg, ← Option.some.inj hfr]
+    simpa using h2
+  · have e : (((Spec.printScaled s).ip : Nat) : Int) = -s / 65536 := by simp only [Spec.printScaled]; omega
+    rw [e] at hds
+    obtain ⟨frac, h1, h2⟩ := scanDimen_printed (-s) (by omega) (by omega) true _ hds k hk
+    obtain ⟨p, hp1, hp2, _⟩ := print_scan_core s h
+    subst hp2
+    have hfr := printScaled_frac s _ hp1
+    have e2 : ((s.natAbs % 65536 : Nat) : Int) = (((-s % 65536).natAbs : Nat) : Int) := by omega
+    rw [e2, h1] at hfr
+    have hneg : (Spec.printScaled s).neg = true := by simp [Spec.printScaled]; omega
+    rw [hneg, ← Option.some.inj hfr]
+    simpa using h2
+
+/-- The width of a glue is scanned as `scan_dimen` without sign, then negated. -/
+theorem width_roundtrip (s : Int) (h : -maxDimen ≤ s ∧ s ≤ maxDimen) :
+    scanGlueWidth (Spec.printScaled s).neg
+      (.const 10 (dec5 (Spec.printScaled s).ip) (some (Spec.printScaled s).frac)) (.phys .pt)
+      = .ok { val := s, nerr := 0, order := 0 } := by
+  have hM : maxDimen = 1073741823 := rfl
+  have hip := printed_ip_small s h
+  have hds := scanConst_dec5 (Spec.printScaled s).ip (by omega)
+  obtain ⟨p, hp1, hp2, _⟩ := print_scan_core s h
+  subst hp2
+  have hfr := printScaled_frac s _ hp1
+  simp only [scanGlueWidth]
+  by_cases hs : 0 ≤ s
+  · have e : (((Spec.printScaled s).ip : Nat) : Int) = s / 65536 := by simp only [Spec.printScaled]; omega
+    rw [e] at hds
+    obtain ⟨frac, h1, h2⟩ := scanDimen_printed s hs h.2 false _ hds 0 (by omega)
+    have e2 : ((s.natAbs % 65536 : Nat) : Int) = (((s % 65536).natAbs : Nat) : Int) := by omega
+    rw [e2, h1] at hfr
+    have hneg : (Spec.printScaled s).neg = false := by simp [Spec.printScaled]; omega
+    rw [hneg, ← Option.some.inj hfr]
+    simp only [unitOfOrder] at h2
+    rw [h2]
+    simp only [mulSign, Bool.false_eq_true, if_false, Int.mul_one]
+    rw [if_pos (by simp [inI32]; omega)]
+  · have e : (((Spec.printScaled s).ip : Nat) : Int) = -s / 65536 := by simp only [Spec.printScaled]; omega
+    rw [e] at hds
+    obtain ⟨frac, h1, h2⟩ := scanDimen_printed (-s) (by omega) (by omega) false _ hds 0 (by omega)
+    have e2 : ((s.natAbs % 65536 : Nat) : Int) = (((-s % 65536).natAbs : Nat) : Int) := by omega
+    rw [e2, h1] at hfr
+    have hneg : (Spec.printScaled s).neg = true := by simp [Spec.printScaled]; omega
+    rw [hneg, ← Option.some.inj hfr]
+    simp only [unitOfOrder] at h2
+    rw [h2]
+    simp only [mulSign, Bool.false_eq_true, if_false, if_true]
+    rw [if_pos (by simp [inI32]; omega)]
+    simp
 
 
 end C06
